@@ -362,10 +362,10 @@ Section Foreign.
       unfold do_stat in D. destruct (faulty e s'); injection D; intros <- _; eexists; (split; [reflexivity | discriminate]).
     - destruct (do_delete e k s') as [r s2] eqn:D. intros H; injection H; intros <- <-.
       split; [|discriminate]. right.
-      unfold do_delete in D. destruct (faulty e s'); injection D; intros <- _; eexists; (split; [reflexivity | reflexivity]).
+      unfold do_delete in D. destruct (faulty e s'); [|destruct (efaulty e s')]; injection D; intros <- _; eexists; (split; [reflexivity | reflexivity]).
     - destruct (do_store e k n s') as [r s2] eqn:D. intros H; injection H; intros <- <-.
       split; [|discriminate]. right.
-      unfold do_store in D. destruct (faulty e s'); [|destruct (is_dir _ _)]; injection D; intros <- _;
+      unfold do_store in D. destruct (faulty e s'); [|destruct (is_dir _ _); [|destruct (efaulty e s')]]; injection D; intros <- _;
         eexists; (split; [reflexivity | discriminate]).
     - intros H; injection H; intros <- <-. split; [left; reflexivity | discriminate].
     - intros H; injection H; intros <- <-. split; [left; reflexivity | discriminate].
